@@ -638,8 +638,8 @@ def s_as_iter(ip, st, fr, name, args, c, site):
     v = ip.load(st, r.cell, r.path)
     if isinstance(v, X.Sym):
         ip.store(st, r.cell, r.path, as_iter(ip, st, v))
-    elif isinstance(v, X.Adt) and v.path.endswith('ops::Range'):
-        ip.store(st, r.cell, r.path, X.Iter(None, v.xs[0], v.xs[1], ('range',)))
+    elif isinstance(v, X.Adt) and (v.path.endswith('ops::Range') or v.path.endswith('ops::RangeInclusive')):
+        ip.store(st, r.cell, r.path, as_iter(ip, st, v))
     return one(X.UNIT)
 
 
